@@ -63,6 +63,7 @@ func vHnswVals(dim, which int) [][]float32 {
 }
 
 type vHnswSys struct {
+	noBatch bool // lean mode: no multi-query searches
 	c       *vCtx
 	cfg     vHnswCfg
 	cfgS    string
@@ -685,6 +686,69 @@ func (s *vHnswSys) observe(h []string) {
 				s.c.Violation("unsound-result", vCauseVec(s.m, res), s.cfgS, h, fmt.Sprintf("q=%v k=%d: %s; got [%s]", q, k, msg, vResStr(res)))
 			}
 			s.c.Outcome(fmt.Sprint(vResIDs(res)))
+		}
+	}
+	if len(s.m.live) > 1 && !s.noBatch {
+		s.observeBatch(h, qs)
+	}
+}
+
+// observeBatch: one Execute with SEVERAL queries answers like the queries one at a time:
+// the per-query lists (same k) aggregated per id (sum), best k of that. Every ordered pair
+// of the first query with the second / third (a far query before a near one and the other way
+// round), k below the number of live vectors.
+func (s *vHnswSys) observeBatch(h []string, qs [][]float32) {
+	if len(qs) > 3 {
+		qs = qs[:3]
+	}
+	ks := []int{1}
+	if len(s.m.live) > 2 {
+		ks = []int{2}
+	}
+	for a := range qs {
+		for b := range qs {
+			if a == b || (a != 0 && b != 0) || (s.cfg.Metric == Cosine && (vIsZero(qs[a]) || vIsZero(qs[b]))) {
+				continue
+			}
+			for _, k := range ks {
+				s.c.Evaluations++
+				per := map[uint32]float64{}
+				fail := false
+				for _, q := range [][]float32{qs[a], qs[b]} {
+					r, err := vRunVecQuery(s.idx, vVecQuery{Q: q, K: k})
+					if err != nil {
+						fail = true
+						break
+					}
+					for _, x := range r {
+						per[x.Node.ID()] += float64(x.Score)
+					}
+				}
+				if fail {
+					continue
+				}
+				got, err := s.idx.NewSearch().WithK(k).WithQuery(vCopyVec(qs[a]), vCopyVec(qs[b])).Execute()
+				if err != nil {
+					s.c.Violation("search-error", "batch", s.cfgS, h, err.Error())
+					continue
+				}
+				var cands []vCand
+				for id, v := range per {
+					cands = append(cands, vCand{id, v})
+				}
+				sort.Slice(cands, func(i, j int) bool {
+					if cands[i].dist != cands[j].dist {
+						return cands[i].dist < cands[j].dist
+					}
+					return cands[i].id < cands[j].id
+				})
+				if msg := vAcceptExact(got, cands, k); msg != "" {
+					s.c.Violation("batch-differs-from-single-queries", "", s.cfgS, h, fmt.Sprintf("queries %v then %v, k=%d: %s; got [%s], the queries one at a time aggregate to %v", qs[a], qs[b], k, msg, vResStr(got), cands))
+				}
+				if len(per) > k {
+					s.c.Nontrivial(fmt.Sprintf("%s|batch|%s|%d|%d|%d", s.cfgS, s.m.key(), a, b, k))
+				}
+			}
 		}
 	}
 }
